@@ -662,12 +662,10 @@ def check_operators(rep, prog, m):
 def check_likelihood_guards(rep, prog):
     im = prog.mod('dadi.Inference')
     guard = None
+    from rules.c11 import autofold_by_value
     for q in ('ll_per_bin', 'linear_Poisson_residual', 'Anscombe_Poisson_residual', 'optimal_sfs_scaling'):
-        fn = prog.func('dadi.Inference', q)
-        stm = [s for s in fn.body if not (isinstance(s, ast.Expr) and isinstance(s.value, ast.Constant))]
-        first = stm[0]
-        ok = isinstance(first, ast.If) and ast.unparse(first.test) == "hasattr(data, 'folded') and data.folded and (not model.folded)" and ast.unparse(first.body[0]) == 'model = model.fold()' and not first.orelse
-        rep.ob('R-TPL', 'Inference.%s auto-fold' % q, ok, ast.unparse(first)[:110], im.rel, first.lineno, what='model folded against folded data before anything else')
+        ok, det_, line_ = autofold_by_value(prog, q)
+        rep.ob('R-TPL', 'Inference.%s auto-fold' % q, ok, det_, im.rel, line_, what='model folded against folded data before anything else')
     # after the auto-fold, mixing a folded with an unfolded spectrum is refused by the Spectrum operators - but only if both
     # arguments take part in the arithmetic as whole spectra at least once (`.data` bypasses the operators and the masks)
     from rules.c11 import mask_sources
